@@ -1,23 +1,79 @@
-(** Correspondence glue for the DicomStack model: a case is a configuration, a history of operations
-    (the files are inside the [OAdd]s) and, per operation, what the implementation did:
-    (exception class or None, shape when the call returns one, ids of [_files_info] afterwards,
-    [_shape_dirty] afterwards). *)
+(** Correspondence glue for the DicomStack model: a case is a configuration, the per-file affines (input), a
+    history of operations (the files are inside the [OAdd]s) and, per operation, the PUBLIC result of the
+    implementation.  [check] runs the model on the same calls ([Model.trace] = [step] after [run] of the calls so
+    far, lemma [ProofsC12.trace_spec]) and compares EVERY operation: "code after a history = model after that
+    history" is decided here per case, "model after a history = model on a fresh stack" is theorem C12_history /
+    C12_queries. *)
 From Coq Require Import List Bool Arith ZArith NArith QArith Qcanon.
-From DV Require Import Common.Res Common.Str Stack.Model.
+From DV Require Import Common.Res Common.Str Common.F64 Stack.Model.
 Import ListNotations.
 Local Open Scope nat_scope.
 
 (** Only PUBLIC results are observed: (exception class or None, shape, dtype code of the returned array / image,
     pixdim[4] of a returned image, phase code of its dim_info (0 unset, 1 'ROW', 2 other), and the order of
-    the files in the returned voxel array, read off the pixel values: slice-major, then time, then vector). *)
-Definition obs_item := (option err * option (list nat) * option nat * option Q * option nat * option (list nat))%type.
+    the files in the returned voxel array, read off the pixel values - which file's pixels sit in voxel block
+    (s, t, v), slice-major, then time, then vector - and the 16 entries (row major, exact values of the doubles) of
+    the affine returned by get_affine / carried by an image converted without reorientation). *)
+Definition obs_item :=
+  (option err * option (list nat) * option nat * option Q * option nat * option (list nat) * option (list Q))%type.
 
 Record case := mkcase {
   c_time : bool;
   c_vec : bool;
+  c_affs : list (nat * list Q);      (* file id |-> its own affine: diag(-1,-1,1,1) x DicomWrapper.affine, row major *)
   c_ops : list op;
   c_obs : list obs_item
 }.
+
+Fixpoint aff_get (affs : list (nat * list Q)) (i : nat) : option (list Q) :=
+  match affs with
+  | [] => None
+  | (j, a) :: r => if Nat.eqb i j then Some a else aff_get r i
+  end.
+
+Fixpoint set_nth {A} (l : list A) (k : nat) (x : A) : list A :=
+  match l, k with
+  | [], _ => []
+  | _ :: t, O => x :: t
+  | h :: t, S k' => h :: set_nth t k' x
+  end.
+
+(** get_affine (dcmstack.py 801-835, after 9c7aa81): a copy of the first sorted file's affine; with several
+    files per volume its slice column becomes second_offset - first_offset, a float64 subtraction *)
+Definition model_affine (affs : list (nat * list Q)) (i0 : nat) (col : option (nat * nat)) : option (list Q) :=
+  match aff_get affs i0 with
+  | None => None
+  | Some A =>
+      match col with
+      | None => Some A
+      | Some (a, b) =>
+          match aff_get affs a, aff_get affs b with
+          | Some Aa, Some Ab =>
+              let d k := fsub (nth k Ab 0%Q) (nth k Aa 0%Q) in
+              Some (set_nth (set_nth (set_nth A 2 (d 3)) 6 (d 7)) 10 (d 11))
+          | _, _ => None
+          end
+      end
+  end.
+
+Fixpoint qs_eqb (a b : list Q) : bool :=
+  match a, b with
+  | [], [] => true
+  | x :: xs, y :: ys => Qeq_bool x y && qs_eqb xs ys
+  | _, _ => false
+  end.
+
+(** the affine the model predicts for an outcome: get_affine, and a conversion without reorientation (the image
+    then carries exactly that array; the reoriented affine is Conv.Geom's subject) *)
+Definition affine_of_outcome (affs : list (nat * list Q)) (o : outcome) : option (list Q) :=
+  match o with
+  | OutAffine i0 col => model_affine affs i0 col
+  | OutNifti n => match o_vo n with
+                  | None => model_affine affs (o_aff0 n) (o_slicecol n)
+                  | Some _ => None
+                  end
+  | _ => None
+  end.
 
 Fixpoint nats_eqb (a b : list nat) : bool :=
   match a, b with
@@ -68,9 +124,9 @@ Definition err_match (e e' : err) : bool :=
   | _ => err_eqb e e'
   end.
 
-Definition item_match (m : res outcome * (list nat * bool)) (o : obs_item) : bool :=
+Definition item_match (affs : list (nat * list Q)) (m : res outcome * (list nat * bool)) (o : obs_item) : bool :=
   let '(r, _) := m in
-  let '(oerr, oshape, odtype, opix, ophase, oorder) := o in
+  let '(oerr, oshape, odtype, opix, ophase, oorder, oaff) := o in
   match r, oerr with
   | Ok out, None =>
       match oshape with
@@ -92,27 +148,31 @@ Definition item_match (m : res outcome * (list nat * bool)) (o : obs_item) : boo
       match oorder with
       | None => true
       | Some l => match order_of_outcome out with Some l' => nats_eqb l l' | None => false end
+      end &&
+      match oaff with
+      | None => true
+      | Some a => match affine_of_outcome affs out with Some a' => qs_eqb a a' | None => false end
       end
   | Err e, Some e' => err_match e e'
   | _, _ => false
   end.
 
-Fixpoint match_all (a : list (res outcome * (list nat * bool))) (b : list obs_item) : bool :=
+Fixpoint match_all (affs : list (nat * list Q)) (a : list (res outcome * (list nat * bool))) (b : list obs_item) : bool :=
   match a, b with
   | [], [] => true
-  | x :: xs, y :: ys => item_match x y && match_all xs ys
+  | x :: xs, y :: ys => item_match affs x y && match_all affs xs ys
   | _, _ => false
   end.
 
 Definition model_trace (c : case) := trace (init (c_time c) (c_vec c)) (c_ops c).
 
-Definition check (c : case) : bool := match_all (model_trace c) (c_obs c).
+Definition check (c : case) : bool := match_all (c_affs c) (model_trace c) (c_obs c).
 
 (** what the model computed, for replay files *)
-Definition show_item (m : res outcome * (list nat * bool)) :=
+Definition show_item (affs : list (nat * list Q)) (m : res outcome * (list nat * bool)) :=
   match fst m with
   | Ok out => (None, shape_of_outcome out, dtype_of_outcome out, pixdim4_of_outcome out, phase_of_outcome out,
-               order_of_outcome out)
-  | Err e => (Some e, None, None, None, None, None)
+               order_of_outcome out, affine_of_outcome affs out)
+  | Err e => (Some e, None, None, None, None, None, None)
   end.
-Definition show (c : case) := map show_item (model_trace c).
+Definition show (c : case) := map (show_item (c_affs c)) (model_trace c).
